@@ -2,7 +2,7 @@
 (* Family Compose (DESIGN 4.3): every constructor of the catalogue, no      *)
 (* unknowing processes.  Serves C10, C13, C19, C07, C08, C01, C02, C11.     *)
 EXTENDS MCGen
-OpsV == {"GoNew", "Sentinel", "CtxDeadline", "Errno", "New", "Newf", "NewfW", "PkgNew", "Unimplemented",
+OpsV == {"OKCode", "Copy", "GoNew", "Sentinel", "CtxDeadline", "Errno", "New", "Newf", "NewfW", "PkgNew", "Unimplemented",
          "AssertionFailedf", "ULeaf", "Wrap", "Wrapf", "WithMessage", "WithMessagef", "WithHintf", "WithDetailf", "UnimplementedErrorf",  "WithStack", "WithHint",
          "WithDetail", "WithSafeDetails", "WithTelemetry", "WithDomain", "WithIssueLink",
          "WithContextTags", "WithAssertionFailure", "Mark", "WithSecondaryError", "CombineErrors",
